@@ -428,6 +428,10 @@ var (
 	slotsRefFreq = time.Minute * 2
 	// slots refresh minum rate is used to prevent excessive refresh requests.
 	slotsRefMinRate = 5 * time.Second
+	// slotsRefTimeout bounds one refresh round: a node that keeps its connection
+	// but does not answer (a stopped process, a frozen machine) must not hold the
+	// only refresher for ever, the next round asks another node.
+	slotsRefTimeout = 5 * time.Second
 )
 
 func (u *upstream) loopRefreshSlots() {
@@ -484,21 +488,41 @@ func (u *upstream) doSlotsRefresh() error {
 		*newBulkString("nodes"),
 	)
 	req := newSimpleRequest(v)
-	// Serve waits for the refresher before it stops the backend connections: do
-	// not wait for room in the queue of a silent one while shutting down.
-	req.abort = u.quit
 
 	addr, err := u.randomHost()
 	if err != nil {
 		return err
 	}
+
+	// Serve waits for the refresher before it stops the backend connections, and
+	// there is only one refresher: wait neither for room in the queue of a silent
+	// node nor for its answer once the upstream is told to stop or the round has
+	// lasted slotsRefTimeout.
+	giveUp := make(chan struct{})
+	timer := time.NewTimer(slotsRefTimeout)
+	defer timer.Stop()
+	go func() {
+		select {
+		case <-req.done:
+			return
+		case <-u.quit:
+		case <-timer.C:
+		}
+		close(giveUp)
+	}()
+	req.abort = giveUp
 	u.MakeRequestToHost(addr, req)
 
-	// wait done, but not for a node that never answers while shutting down
 	select {
 	case <-req.done:
-	case <-u.quit:
-		return errors.New(upstreamExited)
+	case <-giveUp:
+		select {
+		case <-req.done:
+		case <-u.quit:
+			return errors.New(upstreamExited)
+		default:
+			return errors.New("no answer to cluster nodes from " + addr)
+		}
 	}
 	resp := req.Response()
 	if resp.Type == Error {
